@@ -75,7 +75,7 @@ impl Scenario for Batch {
         if tier == "thorough" {
             2_000_000
         } else {
-            40_000
+            200_000
         }
     }
 
